@@ -26,7 +26,7 @@ META = {
             "file differs from the seed; distinct = hash of the file bytes.",
     "reach": {"fault:truncation": 2000, "fault:bitflip": 5000,
               "fault:substitution": 500, "fault:header_byte": 2000,
-              "fault:structural": 150, "outcome:accepted_coherent": 500,
+              "fault:structural": 150, "fault:splice": 500, "outcome:accepted_coherent": 500,
               "outcome:rejected": 5000, "#structural_classes": 20,
               "header_rule_checks": 2000},
     "assumptions": [
@@ -307,6 +307,26 @@ def run(ctx):
                 continue
             x[pos] = v
             try_load(ctx, gtirb, bytes(x), "substitution")
+        # multi-byte damage: insertions, deletions, duplicated and swapped
+        # chunks (sampled)
+        for _ in range(ctx.params.get("splices", 60)):
+            x = bytearray(raw)
+            k = rnd.randrange(5)
+            a = rnd.randrange(8, max(9, len(x)))
+            n = rnd.randint(1, 12)
+            if k == 0:
+                x[a:a] = bytes(rnd.randrange(256) for _ in range(n))
+            elif k == 1:
+                del x[a:a + n]
+            elif k == 2:
+                x[a:a] = x[a:a + n]
+            elif k == 3:
+                b = rnd.randrange(8, max(9, len(x)))
+                x[a:a + n], x[b:b + n] = x[b:b + n], x[a:a + n]
+            else:
+                x[a:a + n] = bytes(n)
+            if bytes(x) != raw:
+                try_load(ctx, gtirb, bytes(x), "splice")
         # all 256 values of every header byte (every 4th seed file)
         if case.index % 4 == 0:
             for pos in range(8):
